@@ -267,7 +267,10 @@ func genC01Plan(rt *rapid.T) c01Plan {
 		Multiplex:        rapid.SampledFrom([]int{-1, -1, 0, 1}).Draw(rt, "multiplex"),
 		AlwaysPipelining: rapid.Bool().Draw(rt, "alwaysPipelining"),
 		RESP2:            rapid.IntRange(0, 4).Draw(rt, "resp2") == 0,
-		FlushDelayUs:     rapid.SampledFrom([]int{0, 0, 20, 200}).Draw(rt, "flushDelay"),
+		// MaxFlushDelay stays 0: when a connection dies the client's clean-up loop spins with
+		// runtime.Gosched until the writer goroutine has exited; a writer sleeping out its flush delay needs
+		// virtual time, which cannot advance while another goroutine of the bubble is spinning.
+		FlushDelayUs: 0,
 		PoolSize:         rapid.IntRange(1, 3).Draw(rt, "poolSize"),
 	}
 	ring := queueLabel() == "ring"
@@ -370,12 +373,16 @@ func c01Check(c *stat.Collector, rt stat.Fataler, plan c01Plan, res bubble.Resul
 	if !closeOK {
 		c.Fail(rt, "C01.close-returns", "Client.Close did not return within a virtual minute", plan)
 	}
-	anyDeadline := false
+	anyDeadline, anyCacheCancel := false, false
 	issued := map[string][]string{}
 	for ci, ops := range plan.Callers {
 		for _, op := range ops {
 			if op.DeadlineUs > 0 {
 				anyDeadline = true
+			}
+			if (op.Kind == "cache" || op.Kind == "multicache") && (op.CancelUs > 0 || op.DeadlineUs > 0) {
+				// waiters on another caller's cache flight receive that caller's error when it abandons the fetch (see C09)
+				anyCacheCancel = true
 			}
 			for _, cm := range op.Cmds {
 				raw := resp.Append(nil, cm.Reply)
@@ -411,7 +418,7 @@ func c01Check(c *stat.Collector, rt stat.Fataler, plan c01Plan, res bubble.Resul
 		for i, rr := range r.Results {
 			err := rr.NonRedisError()
 			if err != nil {
-				if isCtxErr(err) && mayCtx {
+				if isCtxErr(err) && (mayCtx || (anyCacheCancel && len(op.Keys) > 0)) {
 					nCtx++
 					continue
 				}
